@@ -9,12 +9,12 @@ fn pad_stub<'a>(_f: &mut core::fmt::Formatter<'a>, _s: &str) -> core::fmt::Resul
 const NEW: usize = 0; const CLONE: usize = 1; const CLOSE: usize = 2; const ENTER: usize = 3; const EXIT: usize = 4;
 const RECORD: usize = 5; const FOLLOWS: usize = 6; const EVENT: usize = 7; const CURRENT: usize = 8; const NK: usize = 9;
 macro_rules! z { () => { AtomicUsize::new(0) }; }
-static N: [[AtomicUsize; NK]; 2] = [[z!(), z!(), z!(), z!(), z!(), z!(), z!(), z!(), z!()], [z!(), z!(), z!(), z!(), z!(), z!(), z!(), z!(), z!()]];
-static LAST_ID: [AtomicU64; 2] = [AtomicU64::new(0), AtomicU64::new(0)];
-static STAMP: [[AtomicUsize; NK]; 2] = [[z!(), z!(), z!(), z!(), z!(), z!(), z!(), z!(), z!()], [z!(), z!(), z!(), z!(), z!(), z!(), z!(), z!(), z!()]];
-static SEQ: AtomicUsize = AtomicUsize::new(0);
-static POLL_STAMP: AtomicUsize = AtomicUsize::new(0);
-static INNER_DROP_STAMP: AtomicUsize = AtomicUsize::new(0);
+vstatic!(N: [[AtomicUsize; NK]; 2] = [[z!(), z!(), z!(), z!(), z!(), z!(), z!(), z!(), z!()], [z!(), z!(), z!(), z!(), z!(), z!(), z!(), z!(), z!()]]);
+vstatic!(LAST_ID: [AtomicU64; 2] = [AtomicU64::new(0), AtomicU64::new(0)]);
+vstatic!(STAMP: [[AtomicUsize; NK]; 2] = [[z!(), z!(), z!(), z!(), z!(), z!(), z!(), z!(), z!()], [z!(), z!(), z!(), z!(), z!(), z!(), z!(), z!(), z!()]]);
+vstatic!(SEQ: AtomicUsize = AtomicUsize::new(0));
+vstatic!(POLL_STAMP: AtomicUsize = AtomicUsize::new(0));
+vstatic!(INNER_DROP_STAMP: AtomicUsize = AtomicUsize::new(0));
 fn tick() -> usize { SEQ.fetch_add(1, AO::SeqCst) + 1 }
 fn hit(i: usize, k: usize, id: u64) { N[i][k].fetch_add(1, AO::SeqCst); LAST_ID[i].store(id, AO::SeqCst); STAMP[i][k].store(tick(), AO::SeqCst); }
 fn n(i: usize, k: usize) -> usize { N[i][k].load(AO::SeqCst) }
